@@ -67,6 +67,11 @@ fn compare(p: &Program, q: &Program, info: &mut CaseInfo, u: &canon::Universe, b
 }
 
 fn run_tree(bytes: &[u8], ctx: &Ctx) -> CaseInfo {
+    let mode = (bytes.iter().map(|b| *b as u32).sum::<u32>() % 3) as u8;
+    crate::build::with_api_mode(mode, || run_tree_inner(bytes, ctx))
+}
+
+fn run_tree_inner(bytes: &[u8], ctx: &Ctx) -> CaseInfo {
     let mut s = Source::new(bytes);
     let p = gen_program(&mut s, &TreeCfg::c02());
     let mut info = CaseInfo::default();
